@@ -92,6 +92,12 @@ func VerifC01Chain() {
 	if serr != nil {
 		return
 	}
+	// the genuine tokens have been presented and accepted in this process before (a bearer token is
+	// shown with every request): whatever the library remembers from that must not help a forgery
+	_, herr := T.AuthorizerFor(WithSingularRootPublicKey(w.rootPub))
+	vAssert(herr == nil, "C01.honest-accepted-first")
+	_, herr = sealed.AuthorizerFor(WithSingularRootPublicKey(w.rootPub))
+	vAssert(herr == nil, "C01.honest-accepted-first")
 	// honest material, by position
 	honest := []*pb.SignedBlock{T.container.Authority}
 	honest = append(honest, T.container.Blocks...)
